@@ -331,6 +331,12 @@ func VerifH_C07_file_objectheader_v1() {
 	vrt.StepBudget(3000000)
 	// version 1 header: byte 0 = 1; the rest symbolic (message count, sizes, a continuation message may point anywhere)
 	f := verifImage("\x01", 39, 24)
+	// stated bound: at most 2 messages in the first block (3 in the thorough tier); continuation blocks add their own
+	maxMsgs := byte(2)
+	if vrt.Thorough() {
+		maxMsgs = 3
+	}
+	vrt.Assume(f.data[3] == 0 && f.data[2] <= maxMsgs)
 	sb := &Superblock{Version: 0, OffsetSize: 8, LengthSize: 8, Endianness: binary.LittleEndian}
 	oh, err := ReadObjectHeader(f, 0, sb)
 	if err == nil {
@@ -369,4 +375,48 @@ func VerifH_C07_file_btreev1_full_node_thorough() {
 		vrt.Assert(n != nil && len(n.Keys) == entries+1 && len(n.Children) == entries, "btree-node-tables")
 	}
 	vrt.Covered("btree-full-node-parsed")
+}
+
+// deflate decoder (filter id 1) on an arbitrary buffer: the two header bytes are arbitrary; the deflate stream is
+// 0..1 further arbitrary bytes. The standard library's inflater runs in the engine as ordinary code.
+func VerifH_C07_deflate_decompress() {
+	vrt.AllocBudget(1 << 20)
+	vrt.LoopBound(70000)
+	data := verifBuf(3)
+	out, err := applyDeflate(data)
+	if err == nil {
+		_ = len(out)
+	}
+	vrt.Covered("deflate-decoded")
+}
+
+// version 1 object header whose only message is a continuation message with a forked block address (any offset 0..56 of
+// the 64-byte file) and a forked block size (9 values): the blocks reachable through continuation messages may overlap the
+// header, the message itself or each other. Reading must stay within a work budget proportional to the file.
+func VerifH_C07_file_objectheader_v1_continuation() {
+	vrt.AllocBudget(1 << 24)
+	vrt.SampleSizes()
+	vrt.LoopBound(1000000)
+	vrt.StepBudget(60000) // an accepted or refused header of this size takes about 1500 steps
+	b := make([]byte, 64)
+	b[0] = 1
+	b[2] = 1                                                               // one message
+	b[4] = 1                                                               // reference count
+	b[8] = 24                                                              // header data size
+	b[16], b[18] = byte(MsgContinuation), 16                               // message type, data size
+	addr := uint64(vrt.Choice(57))                                         // every byte offset at which a message header fits
+	size := []uint64{0, 8, 16, 24, 32, 40, 48, 64, 1 << 40}[vrt.Choice(9)] // block sizes incl. one far beyond the file
+	binary.LittleEndian.PutUint64(b[24:], addr)
+	binary.LittleEndian.PutUint64(b[32:], size)
+	// one more message of 16 data bytes: arbitrary type (low byte), and, if it is another continuation, an arbitrary
+	// block address and size below 256
+	b[40], b[42] = vrt.U8(), 16
+	b[48], b[56] = vrt.U8(), vrt.U8()
+	f := &verifFile{data: b}
+	sb := &Superblock{Version: 0, OffsetSize: 8, LengthSize: 8, Endianness: binary.LittleEndian}
+	oh, err := ReadObjectHeader(f, 0, sb)
+	if err == nil {
+		vrt.Assert(oh != nil, "objectheader-nil-without-error")
+	}
+	vrt.Covered("objectheader-v1-continuation-read")
 }
